@@ -4,6 +4,9 @@ go 1.22
 
 require go.nanomsg.org/mangos/v3 v3.0.0
 
-require github.com/gorilla/websocket v1.5.3 // indirect
+require (
+	github.com/gdamore/optopia v0.2.0 // indirect
+	github.com/gorilla/websocket v1.5.3 // indirect
+)
 
 replace go.nanomsg.org/mangos/v3 => /repo
